@@ -158,7 +158,9 @@ def run_scenario(sc):
         leaked = S.shutdown()
         obs['harness_leaked_real_threads'] = leaked
         _install.uninstall()
-    return obs
+    obs.pop('_open_gens', None)
+    import json as _json
+    return _json.loads(_json.dumps(obs, default=lambda x: repr(x)[:120]))
 
 
 def task_id_of(task, ordered, ekind, numpy_in):
@@ -324,6 +326,7 @@ def _run(sc, S, obs):
         return wid, shared_ok, state, a
 
     stable = {}
+    now_op = [0]        # index of the operation being executed right now (for attributing deferred hooks)
 
     def mk_funcs(op, opi):
         """user functions of operation opi.  With sc['same_func'] the SAME function objects serve every operation
@@ -369,12 +372,18 @@ def _run(sc, S, obs):
             else:
                 idx, conv = idx_of_call(ekind, rest, kwargs)
             tok = token()
-            rec = [opi, 'task', S.cur.role, tok, wid, idx, round(t0, 6), None, conv, state_check(state, tok), shared_ok]
+            rec = [opi, 'task', S.cur.role, tok, wid, idx, round(t0, 6), None, conv, state_check(state, tok), shared_ok, now_op[0]]
             calls.append(rec)
             S.rec('user', 'task', idx)
-            d = dur_of(op.get('dur'), idx if idx is not None else 0)
-            if d:
-                sim.time_shim.sleep(d)
+            S.cur.in_user = 1
+            try:
+                d = dur_of(op.get('dur'), idx if idx is not None else 0)
+                if d:
+                    sim.time_shim.sleep(d)
+                else:
+                    S.yield_point('user-body')
+            finally:
+                S.cur.in_user = 0
             if idx in fail.get('at', ()):  # raise in this task
                 e = _mk_exc(fail.get('exc', 'ValueError'), idx)
                 excs_raised.append(exc_info(e))
@@ -388,7 +397,7 @@ def _run(sc, S, obs):
             op, opi, cfg, ekind, fail, numpy_in = ctx()
             wid, shared_ok, state, rest = extras_check(args, cfg)
             tok = token()
-            rec = [opi, 'init', S.cur.role, tok, wid, None, round(S.now - S.t0, 6), None, len(rest) == 0, state_check(state, tok), shared_ok]
+            rec = [opi, 'init', S.cur.role, tok, wid, None, round(S.now - S.t0, 6), None, len(rest) == 0, state_check(state, tok), shared_ok, now_op[0]]
             calls.append(rec)
             S.rec('user', 'init', None)
             d = dur_of(op.get('init_dur'), int(S.cur.role.split('-')[-1]) if '-' in S.cur.role else 0)
@@ -404,7 +413,7 @@ def _run(sc, S, obs):
             op, opi, cfg, ekind, fail, numpy_in = ctx()
             wid, shared_ok, state, rest = extras_check(args, cfg)
             tok = token()
-            rec = [opi, 'exit', S.cur.role, tok, wid, None, round(S.now - S.t0, 6), None, len(rest) == 0, state_check(state, tok), shared_ok]
+            rec = [opi, 'exit', S.cur.role, tok, wid, None, round(S.now - S.t0, 6), None, len(rest) == 0, state_check(state, tok), shared_ok, now_op[0]]
             calls.append(rec)
             S.rec('user', 'exit', None)
             d = dur_of(op.get('exit_dur'), int(S.cur.role.split('-')[-1]) if '-' in S.cur.role else 0)
@@ -425,6 +434,9 @@ def _run(sc, S, obs):
             o = {'op': op['op'], 't0': round(S.now - S.t0, 6), 'trace_i0': len(S.trace)}
             obs['ops'].append(o)
             kind = op['op']
+            now_op[0] = opi
+            if sc.get('same_func') and kind not in ('map', 'map_unordered', 'imap', 'imap_unordered', 'apply_batch'):
+                cur['opi'] = opi        # user functions running during this operation (e.g. deferred worker_exit) belong to it
             try:
                 if kind in ('map', 'map_unordered', 'imap', 'imap_unordered'):
                     _do_map(pool, op, opi, o, mk_funcs, S, obs)
@@ -463,6 +475,7 @@ def _run(sc, S, obs):
                 o['exc'] = exc_info(e)
             o['t1'] = round(S.now - S.t0, 6)
             o['trace_i1'] = len(S.trace)
+            o['main_points_end'] = S.threads[0].points
             if kind in ('map', 'map_unordered', 'imap', 'imap_unordered'):
                 evs, failed = extract_proto(S.trace, o['trace_i0'], o['trace_i1'], op)
                 if failed or o.get('outcome') != 'ok' or op.get('consume', 'all') != 'all':
@@ -479,6 +492,7 @@ def _run(sc, S, obs):
                 o['insights'] = {'error': repr(e)}
             o['control'] = control_snapshot(pool)
             o['alive_after'] = sorted(t.role for t in S.threads[1:] if t.started and not t.done)
+            o['instances_alive'] = [i for i, t in enumerate(S.threads) if t.role.startswith('Worker-') and t.started and not t.done]
     finally:
         t_exit0 = S.now
         try:
@@ -489,6 +503,22 @@ def _run(sc, S, obs):
         except BaseException as e:  # noqa
             obs['exit_outcome'] = 'raise ' + repr(e)[:200]
         obs['exit_virtual_s'] = round(S.now - t_exit0, 4)
+        # lazy calls that were left open: the caller drops the generators now (their finally clauses run)
+        for g in obs.pop('_open_gens', []):
+            try:
+                g.close()
+            except (sim.Stuck, sim.SimAbort):
+                raise
+            except BaseException as e:  # noqa
+                obs.setdefault('gen_close_errors', []).append(repr(e)[:200])
+        # grace period: a helper that is about to end by itself is not a leak; one that is still there after 2 virtual seconds is
+        try:
+            if any(t.started and not t.done for t in S.threads[1:]):
+                sim.time_shim.sleep(2.0)
+        except (sim.Stuck, sim.SimAbort):
+            raise
+        except BaseException:  # noqa
+            pass
         obs['alive_at_exit'] = sorted(t.role for t in S.threads[1:] if t.started and not t.done)
         obs['sigint_handler_after'] = repr(S.mainproc.handlers.get(sim.SIGINT))
         obs['tqdm_lock_same'] = std_tqdm.get_lock() is lock_before
@@ -649,24 +679,64 @@ def _make_injection(inj, obs):
             return
         if kind == 'sigkill':
             if st.role == inj['victim'] and st.points == inj['point']:
-                if st.held > 0:
-                    obs['inject_skipped'] = 'victim holds a lock'
-                    fired.append(1)
-                    return
-                if inj.get('only_in_user') and not _in_user(S, st):
+                ordinal = sum(1 for t in S.threads[:S.threads.index(st) + 1] if t.role == st.role) - 1
+                if ordinal != inj.get('instance', 0):
                     return
                 fired.append(1)
-                obs['injected'] = {'kind': 'sigkill', 'victim': st.role, 'point': st.points, 't': round(S.now - S.t0, 6)}
+                if st.held > 0:
+                    obs['inject_skipped'] = 'victim holds a lock'
+                    return
+                w = int(st.role.split('-')[1])
+                announced = any(ev[2] == st.role and ev[3] == 'array.set' and ev[4] == 'workers_dead' and ev[5] == w and ev[6] is False
+                                for ev in S.trace if ev[0] >= getattr(st, 'start_step', 0))
+                if not announced:
+                    obs['inject_skipped'] = 'start-up window (victim has not announced itself)'
+                    return
+                if st.done:
+                    obs['inject_skipped'] = 'victim already finished'
+                    return
+                obs['injected'] = {'kind': 'sigkill', 'victim': st.role, 'instance': ordinal, 'point': st.points, 't': round(S.now - S.t0, 6),
+                                   'in_user_function': bool(getattr(st, 'in_user', 0)), 'victim_phase': _victim_phase(S, st)}
                 S.rec('inject-sigkill', st.role)
                 S.kill_proc(st.proc)
         elif kind == 'sigint':
             if st is S.threads[0] and st.points == inj['point']:
                 fired.append(1)
+                import traceback as _tb
+                frames = [f for f in _tb.extract_stack() if '/mpire/' in f.filename]
+                site = '>'.join('%s:%s' % (f.filename.split('/mpire/')[-1].replace('.py', ''), f.name) for f in frames[-3:])
                 obs['injected'] = {'kind': 'sigint', 'point': st.points, 't': round(S.now - S.t0, 6),
-                                   'handler': repr(S.mainproc.handlers.get(sim.SIGINT))[:60]}
+                                   'handler': repr(S.mainproc.handlers.get(sim.SIGINT)).split(' at ')[0][:60], 'site': site}
                 S.rec('inject-sigint')
                 S.mainproc.pending.append(sim.SIGINT)
     return hook
+
+
+def _victim_phase(S, st):
+    """what the victim did last: 'in_user', 'apply_pill_taken' / 'apply_task_taken' (dequeued, job not announced yet), 'idle', ..."""
+    if getattr(st, 'in_user', 0):
+        return 'in_user'
+    for ev in reversed(S.trace):
+        if ev[0] < getattr(st, 'start_step', 0):
+            break
+        if ev[2] != st.role:
+            continue
+        if ev[3] == 'array.set' and ev[4] == 'working_on_job':
+            return 'job_announced'
+        if ev[3] == 'user':
+            return 'after_user'
+        if ev[3] == 'q.put' and ev[4] == 'rq':
+            return 'results_sent'
+        if ev[3] == 'q.get' and isinstance(ev[4], str) and ev[4].startswith('tq['):
+            item = ev[5]
+            if item == '\x03':
+                return 'apply_pill_taken'
+            if isinstance(item, tuple) and len(item) == 2 and isinstance(item[1], tuple) and item[1] and callable(item[1][0]):
+                return 'apply_task_taken'
+            if isinstance(item, tuple):
+                return 'chunk_taken'
+            return 'pill_taken'
+    return 'idle'
 
 
 def _in_user(S, st):
